@@ -665,7 +665,7 @@ def super_default_attr(it, sup, name):
                 selfv.attrs['args'] = tuple(a)
             return None
         return I.Builtin('object.__init__', init)
-    if name in ('setUp', 'tearDown', '_setUp'):
+    if name in ('setUp', 'tearDown', '_setUp', 'cleanUp'):
         return I.Builtin('noop', lambda it_, a, kw: None)
     return MISSING
 
